@@ -130,6 +130,7 @@ LIBS = ['-lstepeditor', '-lstepcore', '-lstepdai', '-lsteputils']
 def driver(name, variant='plain', lazy=False, extra=()):
     """Compile /verif/drivers/<name>.cc once per (source, headers, variant).  Drivers dlopen the
     schema library given on their command line, so they are independent of any schema."""
+    b = ensure(variant)      # always: the driver runs against the libraries of the working tree
     src = os.path.join(ROOT, 'drivers', name + '.cc')
     with open(src, 'rb') as f:
         s = f.read()
@@ -140,7 +141,6 @@ def driver(name, variant='plain', lazy=False, extra=()):
     exe = os.path.join(d, '%s-%s' % (name, key))
     if os.path.exists(exe):
         return exe
-    b = ensure(variant)
     with Lock('drv-' + name + variant):
         if os.path.exists(exe):
             return exe
